@@ -155,7 +155,14 @@ def _normalize_run_space(value: Any) -> Any:
 
 
 def _compute_run_space_spec_id(run_space: Mapping[str, Any]) -> str:
-    normalized = _normalize_run_space(run_space)
+    # Hash the parsed configuration (defaults filled in), exactly what the
+    # runtime passes to RunSpaceIdentityService.
+    from dataclasses import asdict
+    from semantiva.configurations.load_pipeline_from_yaml import (
+        _parse_run_space_block,
+    )
+
+    normalized = _normalize_run_space(asdict(_parse_run_space_block(run_space)))
     payload = json.dumps(normalized, separators=(",", ":"), ensure_ascii=False).encode(
         "utf-8"
     )
